@@ -312,7 +312,10 @@ example :
 in every store key and value are the same record — what the D4 repair establishes; preserved by every mutator), that
 the hand-written `Cache` model computes what those bodies compute.  The record manager (`Zc.ingest`) and the purge
 (`Zc.expire`) use the cache only through `CacheOps`; four of its six operations are translated code (`resetTtl` and
-`markFlush` mutate record objects that live in both indexes: outside the translated subset, tied by the differential). -/
+`markFlush` mutate record objects that live in both indexes: outside the translated subset, tied by the differential).
+**Not transported**: `ingest`/`expire` themselves are hand-written and the theorems about them are stated over the model's `CacheOps`;
+the lemma "`ingest` over the generated operations = `ingest` over the model operations under `CInv`" (with `CInv` preserved by
+`resetTtl`/`markFlush` as a hypothesis) is not proved here. -/
 section Tie
 open Zc.Py Zc.GenFn.Cache Zc.GenFacts.FnCache
 
